@@ -607,6 +607,7 @@ fn implements_mut(m: &mut Model, i: usize) -> (&'static str, &mut Vec<String>) {
     }
 }
 fn is_comp(k: &Kind) -> bool { matches!(k, Kind::Object { .. } | Kind::Interface { .. }) }
+fn is_comp_nonempty(k: &Kind) -> bool { match k { Kind::Object { fields, .. } | Kind::Interface { fields, .. } => !fields.is_empty(), _ => false } }
 fn tname(m: &Model, i: usize) -> String { if let Item::T(t) = &m.items[i] { t.name.clone() } else { String::new() } }
 fn all_types_snapshot(m: &Model) -> Vec<TypeDef> { m.types().cloned().collect() }
 
@@ -617,6 +618,7 @@ fn mutation_kinds() -> Vec<&'static str> {
          "input_in_output", "output_in_arg", "output_in_directive_arg", "output_in_input_field",
          "not_interface", "implements_self", "missing_transitive",
          "iface_field_missing", "iface_field_type", "iface_arg_missing", "iface_arg_type", "iface_extra_required_arg",
+         "iface_null_weaken", "iface_null_strengthen", "iface_list_depth", "iface_null_weaken",
          "union_member_not_object",
          "directive_unknown", "directive_misplaced", "directive_repeated",
          "dirarg_wrong_literal", "dirarg_missing_required", "dirarg_unknown", "dirarg_not_needed", "dirarg_null", "dirarg_enum_member",
@@ -672,7 +674,7 @@ fn mutate(rng: &mut Rng, m: &mut Model, kind: &str) -> Option<(String, String)> 
             ok("reserved_name", &format!("type_{tag}"))
         }
         "reserved_field" => {
-            let idx = type_idx(m, is_comp); let i = *rng.pick(&idx);
+            let idx = type_idx(m, is_comp_nonempty); let i = *rng.pick(&idx);
             let (tag, fs) = fields_mut(m, i);
             let cands: Vec<usize> = (0..fs.len()).filter(|j| fs[*j].root.is_none() || true).collect();
             let j = *rng.pick(&cands);
@@ -725,7 +727,7 @@ fn mutate(rng: &mut Rng, m: &mut Model, kind: &str) -> Option<(String, String)> 
             ok("reserved_name", "directive_arg")
         }
         "dup_field" => {
-            let idx = type_idx(m, is_comp); let i = *rng.pick(&idx);
+            let idx = type_idx(m, is_comp_nonempty); let i = *rng.pick(&idx);
             let (tag, fs) = fields_mut(m, i);
             let j = rng.below(fs.len()); let mut c = fs[j].clone(); c.dirs.clear();
             let at = rng.range(j + 1, fs.len()); fs.insert(at, c);
@@ -842,6 +844,58 @@ fn mutate(rng: &mut Rng, m: &mut Model, kind: &str) -> Option<(String, String)> 
             let (i, k) = rng.pick(&cands).clone();
             let (tag, im) = implements_mut(m, i); im.retain(|x| x != &k);
             ok("missing_transitive", tag)
+        }
+        "iface_null_weaken" | "iface_null_strengthen" | "iface_list_depth" => {
+            // inherited fields of objects and of interfaces implementing interfaces: (item, field, holder name)
+            let mut cands = vec![];
+            for i in type_idx(m, is_comp) {
+                let me = tname(m, i);
+                if let Item::T(TypeDef { kind: Kind::Object { fields, .. } | Kind::Interface { fields, .. }, .. }) = &m.items[i] {
+                    for (j, f) in fields.iter().enumerate() { if let Some((owner, _)) = &f.root { if owner != &me { cands.push((i, j)); } } }
+                }
+            }
+            if cands.is_empty() { return None; }
+            rng.shuffle(&mut cands);
+            for (i, j) in cands {
+                let me = tname(m, i);
+                let (my_impls, f) = match &m.items[i] { Item::T(TypeDef { kind: Kind::Object { implements, fields } | Kind::Interface { implements, fields }, .. }) => (implements.clone(), fields[j].clone()), _ => unreachable!() };
+                let tag = if matches!(&m.items[i], Item::T(TypeDef { kind: Kind::Object { .. }, .. })) { "object" } else { "interface" };
+                let (mut flags, base) = ty_levels(&f.ty);
+                // the same field in the interfaces this type implements, and in the types that implement this type
+                let same = |t: &TypeDef| -> Option<Ty> { match &t.kind { Kind::Object { fields, .. } | Kind::Interface { fields, .. } => fields.iter().find(|x| x.root == f.root && x.name == f.name).map(|x| x.ty.clone()), _ => None } };
+                let above: Vec<Vec<bool>> = m.types().filter(|t| my_impls.contains(&t.name)).filter_map(|t| same(t)).map(|t| ty_levels(&t).0).collect();
+                let below: Vec<Vec<bool>> = m.types().filter(|t| match &t.kind { Kind::Object { implements, .. } | Kind::Interface { implements, .. } => implements.contains(&me), _ => false })
+                    .filter_map(|t| same(t)).map(|t| ty_levels(&t).0).collect();
+                let n = flags.len();
+                let site;
+                match kind {
+                    "iface_null_weaken" => {
+                        // drop a `!` the interface insists on; list levels (k < n-1) first when there are any
+                        let mut ks: Vec<usize> = (0..n).filter(|k| flags[*k] && above.iter().any(|a| a.len() == n && a[*k])).collect();
+                        if ks.is_empty() { continue; }
+                        let on_list: Vec<usize> = ks.iter().copied().filter(|k| *k + 1 < n).collect();
+                        if !on_list.is_empty() && rng.chance(2, 3) { ks = on_list; }
+                        let k = *rng.pick(&ks); flags[k] = false;
+                        site = format!("null_weaken:{}:{}", if k + 1 < n { "list_level" } else { "named" }, tag);
+                    }
+                    "iface_null_strengthen" => {
+                        // add a `!`: stays a valid implementation; types implementing this one must already have it
+                        let ks: Vec<usize> = (0..n).filter(|k| !flags[*k] && below.iter().all(|b| b.len() == n && b[*k])).collect();
+                        if ks.is_empty() { continue; }
+                        let k = *rng.pick(&ks); flags[k] = true;
+                        site = format!("null_strengthen:{}:{}", if k + 1 < n { "list_level" } else { "named" }, tag);
+                    }
+                    _ => {
+                        // one list level more or less, at a random depth
+                        if n > 1 && rng.chance(1, 2) { let k = rng.below(n - 1); flags.remove(k); site = format!("list_depth:minus:{tag}"); }
+                        else { let k = rng.below(n); flags.insert(k, rng.chance(1, 2)); site = format!("list_depth:plus:{tag}"); }
+                    }
+                }
+                let newty = ty_build(&flags, &base);
+                let (_, fs) = fields_mut(m, i); fs[j].ty = newty;
+                return if kind == "iface_null_strengthen" { ok("valid", &site) } else { ok("iface_field_type", &site) };
+            }
+            None
         }
         "iface_field_missing" | "iface_field_type" | "iface_arg_missing" | "iface_arg_type" | "iface_extra_required_arg" => {
             // (implementer index, field index) of inherited fields
@@ -1069,6 +1123,23 @@ fn mutate(rng: &mut Rng, m: &mut Model, kind: &str) -> Option<(String, String)> 
     }
 }
 
+/// non-null flags per list depth (outermost first; the last entry is the named type's) and the base name
+fn ty_levels(t: &Ty) -> (Vec<bool>, String) {
+    let mut flags = vec![]; let mut cur = t;
+    loop {
+        let (nn, inner) = match cur { Ty::NonNull(x) => (true, &**x), x => (false, x) };
+        flags.push(nn);
+        match inner { Ty::List(x) => { cur = x; } Ty::Named(n) => return (flags, n.clone()), Ty::NonNull(_) => unreachable!() }
+    }
+}
+fn ty_build(flags: &[bool], base: &str) -> Ty {
+    let mut t = Ty::n(base);
+    for (k, nn) in flags.iter().enumerate().rev() {
+        if k + 1 < flags.len() { t = Ty::l(t); }
+        if *nn { t = Ty::nn(t); }
+    }
+    t
+}
 fn map_types(m: &mut Model, f: &dyn Fn(&mut Ty)) {
     for it in m.items.iter_mut() {
         match it {
@@ -1156,6 +1227,12 @@ fn corpus() -> Vec<(&'static str, &'static str, &'static str)> {
         ("x_empty_object", "corpus:object_without_fields", "type A\ntype Query { a: A }\n"),
         ("x_empty_union", "corpus:union_without_members", "union U\ntype Query { u: U }\n"),
         ("iface_field_missing", "corpus:object_without_fields_implements", "interface I { f: Int }\ntype A implements I\ntype Query { a: A }\n"),
+        ("iface_field_type", "corpus:list_nullable_for_nonnull_list", "type T { a: Int }\ninterface I { f: [T]! }\ntype Query implements I { f: [T] }\n"),
+        ("iface_field_type", "corpus:inner_list_nullable_for_nonnull", "type T { a: Int }\ninterface I { f: [[T]!] }\ntype Query implements I { f: [[T]] }\n"),
+        ("iface_field_type", "corpus:list_of_nonnull_nullable_for_nonnull", "type Item { a: Int }\ninterface I { f: [Item!]! }\ntype Query implements I { f: [Item!] }\n"),
+        ("iface_field_type", "corpus:interface_implements_interface_list_nullable", "type T { a: Int }\ninterface I { f: [[T!]!]! }\ninterface J implements I { f: [[T!]]! }\ntype Query implements J & I { f: [[T!]!]! }\n"),
+        ("valid", "corpus:nullability_strengthened_everywhere", "type T implements N { a: Int }\ninterface N { a: Int }\ninterface I { f: [[N]] g: [N] }\ninterface J implements I { f: [[N]!] g: [N!] }\ntype Query implements J & I { f: [[T!]!]! g: [T!]! }\n"),
+        ("iface_field_type", "corpus:list_depth", "interface I { f: [Int] g: [[Int]] }\ntype Query implements I { f: [[Int]] g: [Int] }\n"),
         ("iface_field_type", "corpus:nullable_for_nonnull", "interface A { f: Int! }\ntype Query implements A { f: Int }\n"),
         ("valid", "corpus:all_locations", "directive @y(n: Int) repeatable on SCHEMA | SCALAR | OBJECT | FIELD_DEFINITION | ARGUMENT_DEFINITION | INTERFACE | UNION | ENUM | ENUM_VALUE | INPUT_OBJECT | INPUT_FIELD_DEFINITION\ndirective @x(a: E = V, i: In = {r: 1} @y) repeatable on SCHEMA | SCALAR | OBJECT | FIELD_DEFINITION | ARGUMENT_DEFINITION | INTERFACE | UNION | ENUM | ENUM_VALUE | INPUT_OBJECT | INPUT_FIELD_DEFINITION\nenum E @y { V @y @deprecated }\ninput In @y { r: Int! @y, o: [In] @y(n: 2) }\nscalar S @x @specifiedBy(url: \"u\")\ninterface I @x { f(a: Int @x): S @x }\ntype Query implements I @x @x(a: V, i: {r: 2, o: [{r: 3}]}) { f(a: Int @x @deprecated): S @x }\nunion U @x = Query\nschema @x { query: Query }\n"),
     ]
@@ -1206,6 +1283,58 @@ fn cerr(e: &CheckError) -> String {
 fn cerr_json(e: &CheckError) -> serde_json::Value {
     json!({"msg": format!("{:?}", e.message), "line": e.position.line, "col": e.position.column, "file": e.position.file,
            "info": e.additional_info.iter().map(|(p, m)| format!("{}:{}:{} {:?}", p.file, p.line, p.column, m)).collect::<Vec<_>>()})
+}
+
+// ------------------------------------------------------------------ unit-level tie of types.rs::is_subtype
+
+const SUB_SCHEMA: &str = "scalar S\nenum E { A }\ninput In { x: Int }\ninterface N { id: ID }\ninterface R implements N { id: ID }\ninterface Z { z: Int }\n\
+type O1 implements R & N { id: ID }\ntype O2 implements Z { z: Int }\ntype O3 { a: Int }\nunion U = O1 | O2\nunion V = O3\ntype Query { a: Int }\n";
+const SUB_BASES: [&str; 13] = ["Int", "S", "E", "In", "N", "R", "Z", "O1", "O2", "O3", "U", "V", "Nope"];
+
+/// all wrappings of `base` with at most `depth` list levels
+fn sub_shapes(base: &str, depth: usize) -> Vec<String> {
+    let mut cur = vec![base.to_string(), format!("{base}!")];
+    let mut all = cur.clone();
+    for _ in 0..depth {
+        let mut next = vec![];
+        for t in &cur { next.push(format!("[{t}]")); next.push(format!("[{t}]!")); }
+        all.extend(next.iter().cloned());
+        cur = next;
+    }
+    all
+}
+
+/// runs the real is_subtype on the given (a, b) pairs of type texts; pushes cases of `batch` pairs each
+fn sub_cases(pairs: &[(String, String)], batch: usize, cases: &mut Cases, dist: &mut BTreeMap<String, u64>) {
+    use nitrogql_ast::type_system::{TypeDefinition, TypeSystemDefinition};
+    use nitrogql_checker::verif_hooks::is_subtype;
+    use nitrogql_semantics::{ast_to_type_system, type_system_utils::convert_type};
+    set_current_file_of_pos(0);
+    let mut merged = TypeSystemOrExtensionDocument::merge(vec![parse_type_system_document(SUB_SCHEMA).expect("sub schema parses")]);
+    merged.extend(graphql_builtins::generate_builtins());
+    merged.extend(cli_builtins::nitrogql_builtins());
+    let doc = resolve_schema_extensions(merged).expect("sub schema resolves");
+    assert!(check_type_system_document(&doc).is_empty(), "the unit-level schema must be accepted");
+    let schema = ast_to_type_system(&doc);
+    let doc_term = ast_coq::tsdoc(&doc);
+    for chunk in pairs.chunks(batch) {
+        // the probe document only serves to obtain AST types for the texts
+        let probe_src: String = format!("type Probe {{\n{}}}\n", chunk.iter().enumerate().map(|(k, (a, b))| format!("  a{k}: {a}\n  b{k}: {b}\n")).collect::<String>());
+        let probe = parse_type_system_document(&probe_src).expect("probe parses");
+        let fields = probe.definitions.iter().find_map(|d| match d {
+            nitrogql_ast::type_system::TypeSystemDefinitionOrExtension::TypeDefinition(TypeDefinition::Object(o)) => Some(&o.fields), _ => None }).unwrap();
+        let _ = std::marker::PhantomData::<TypeSystemDefinition>;
+        let mut terms = vec![]; let mut descr = vec![];
+        for k in 0..chunk.len() {
+            let (ta, tb) = (&fields[2 * k].r#type, &fields[2 * k + 1].r#type);
+            let r = is_subtype(&schema, &convert_type(ta), &convert_type(tb));
+            *dist.entry(format!("is_subtype:{:?}", r)).or_insert(0) += 1;
+            terms.push(format!("({}, {}, {})", ast_coq::ty(ta), ast_coq::ty(tb), coq_opt(&r, |x| coq_bool(*x).to_string())));
+            descr.push(format!("is_subtype({}, {}) = {:?}", chunk[k].0, chunk[k].1, r));
+        }
+        cases.push(format!("CSub {} [{}]", doc_term, terms.join("; ")),
+                   json!({"kind":"is_subtype","label":"unit","site":"is_subtype","schema":SUB_SCHEMA,"pairs":descr}));
+    }
 }
 
 // ------------------------------------------------------------------ running the real pipeline
@@ -1293,6 +1422,22 @@ fn main() {
         emit(label, site, &[], files, 0, &mut cases, &mut dist);
     }
 
+    // unit-level: types.rs::is_subtype on pairs of wrapped types over a small fixed schema (objects, interfaces incl.
+    // interface-implements-interface, unions, scalars, enum, input, an undefined name): all pairs with <= 1 list level
+    // (thorough: <= 2 levels) plus random deeper pairs
+    let n_sub;
+    {
+        let depth = if thorough { 2 } else { 1 };
+        let types: Vec<String> = SUB_BASES.iter().flat_map(|b| sub_shapes(b, depth)).collect();
+        let mut pairs: Vec<(String, String)> = vec![];
+        for a in &types { for b in &types { pairs.push((a.clone(), b.clone())); } }
+        let deep: Vec<String> = SUB_BASES.iter().flat_map(|b| sub_shapes(b, 3)).collect();
+        for _ in 0..(if thorough { 6000 } else { 1500 }) { pairs.push((rng.pick(&deep).clone(), rng.pick(&deep).clone())); }
+        n_sub = pairs.len();
+        for p in &pairs { distinct.insert(format!("sub|{}|{}", p.0, p.1)); }
+        sub_cases(&pairs, 48, &mut cases, &mut dist);
+    }
+
     for b in 0..n_base {
         let cfg = GenCfg { big: thorough && b % 5 == 0 };
         let m = gen_model(&mut rng, &cfg);
@@ -1311,6 +1456,7 @@ fn main() {
             tries += 1;
             let kind = all_muts[mut_cursor % all_muts.len()]; mut_cursor += 1;
             let mut mm = m.clone();
+            if std::env::var("C05_TRACE").is_ok() { eprintln!("kind {kind}"); }
             let Some((label, site)) = mutate(&mut rng, &mut mm, kind) else { continue };
             let tag = rng.next();
             let files = render_model(&mm, &mut Rng::new(tag));
@@ -1343,12 +1489,13 @@ fn main() {
     write_meta(&args.out, &json!({
         "evaluations": cases.len(),
         "distinct_nontrivial": distinct.len(),
-        "rule": "distinct = distinct rendered SDL file tuples; every case is a whole schema (>= 12 definitions incl. built-ins) run through parse/merge/resolve/check of /repo and through the model; valid-by-construction models, single-fault mutations labelled by rule and site, multi-fault mixes, hand-written corpus",
+        "rule": "distinct = distinct rendered SDL file tuples plus distinct (a, b) type pairs of the unit-level is_subtype stream (48 pairs per case); every case is a whole schema (>= 12 definitions incl. built-ins) run through parse/merge/resolve/check of /repo and through the model; valid-by-construction models, single-fault mutations labelled by rule and site, multi-fault mixes, hand-written corpus",
         "samples": samples,
         "distribution": {
             "valid_models": n_valid, "valid_models_accepted_by_impl": n_valid_accepted,
             "single_fault_mutations": n_fault, "single_fault_mutations_rejected_by_impl": n_fault_rejected,
             "max_definitions_in_resolved_doc": max_defs,
+            "is_subtype_pairs_unit_level": n_sub,
             "by_kind": dist,
         },
         "direct_failures": direct_failures,
